@@ -42,10 +42,15 @@ func run(rc *kernel.RunCtx) {
 				rc.Fail("panic", "ioutil", fmt.Sprintf("panic: %v", v))
 			}
 		}()
-		if rc.Tape.Bool(1, 3) {
+		switch m := rc.Tape.Choose(12); {
+		case m < 4:
 			runWriter(c)
-		} else {
+		case m < 10:
 			runReader(c)
+		case m < 11:
+			runNestedReader(c)
+		default:
+			runGrowingBuffer(c)
 		}
 	}()
 	rc.Log = c.log
@@ -232,6 +237,119 @@ func runReader(c *ctx) {
 	}
 }
 
+// runNestedReader wraps a limited reader in another one: for the outer reader
+// the inner one is "r", with its own remaining budget.
+func runNestedReader(c *ctx) {
+	tp, rc := c.rc.Tape, c.rc
+	l := tp.Range(1, 40)
+	data := mkData(l)
+	n0 := uint64(tp.Range(1, l+3))
+	sr := kernel.NewSimReader(tp, rc.Stats, data, false)
+	inner := ioutil.LimitReader(sr, n0)
+	var total uint64 // bytes delivered through the inner reader, by whomever
+	read := func(r interface{ Read([]byte) (int, error) }, who string, limit uint64, delivered *uint64) (stop bool) {
+		p := make([]byte, tp.Choose(12))
+		got, err := r.Read(p)
+		c.logf("%s.Read(buf %d) = (%d, %v)", who, len(p), got, err)
+		c.sig = kernel.HashBytes(c.sig, []byte{byte(len(p)), byte(got), errByte(err)})
+		rc.Steps++
+		if got < 0 || got > len(p) || !bytes.Equal(p[:got], data[total:min(uint64(l), total+uint64(got))]) {
+			rc.Fail("not-prefix", "LimitReader.Read", fmt.Sprintf("%s reader delivered %v at stream offset %d of %v", who, p[:max(got, 0)], total, data))
+
+			return true
+		}
+		total += uint64(got)
+		*delivered += uint64(got)
+		switch {
+		case total > n0:
+			rc.Fail("over-delivery", "LimitReader.Read", fmt.Sprintf(
+				"%d bytes came out of a reader limited to %d (the outer reader, limited to %d, bypassed the budget of the reader it wraps)", total, n0, limit))
+
+			return true
+		case *delivered > limit:
+			rc.Fail("over-delivery", "LimitReader.Read", fmt.Sprintf("the %s reader delivered %d bytes with limit %d", who, *delivered, limit))
+
+			return true
+		}
+		var le *ioutil.LimitError
+		if errors.As(err, &le) {
+			switch {
+			case le.Limit == limit && *delivered == limit, who == "outer" && le.Limit == n0 && total == n0:
+			default:
+				rc.Fail("limit-error", "LimitReader.Read", fmt.Sprintf(
+					"%s reader (limit %d, delivered %d; inner limit %d, delivered through it %d) returned %v", who, limit, *delivered, n0, total, err))
+			}
+
+			return true
+		}
+
+		return err != nil
+	}
+	var innerDelivered uint64
+	for k := tp.Choose(4); k > 0; k-- {
+		if read(inner, "inner", n0, &innerDelivered) {
+			return
+		}
+	}
+	n := uint64(tp.Range(1, int(n0)+2))
+	outer := ioutil.LimitReader(inner, n)
+	c.logf("nested: stream=%d inner limit=%d consumed=%d outer limit=%d", l, n0, innerDelivered, n)
+	c.sig = kernel.HashBytes(c.sig, []byte(fmt.Sprint("N", l, n0, innerDelivered, n)))
+	c.nonTriv = true
+	rc.Stats.Probe("nested-limited-readers")
+	// innerDelivered keeps counting what goes through the inner reader.
+	var outerDelivered uint64
+	for i := 0; i < 40; i++ {
+		if read(outer, "outer", n, &outerDelivered) {
+			return
+		}
+	}
+}
+
+// runGrowingBuffer wraps a *bytes.Buffer (or a strings/bytes Reader) that holds
+// less than the limit when it is wrapped and more afterwards.
+func runGrowingBuffer(c *ctx) {
+	tp, rc := c.rc.Tape, c.rc
+	n := uint64(tp.Range(1, 20))
+	first := mkData(tp.Choose(int(n)))
+	buf := bytes.NewBuffer(append([]byte(nil), first...))
+	lr := ioutil.LimitReader(buf, n)
+	more := mkData(int(n) + tp.Range(1, 10))[len(first):]
+	buf.Write(more)
+	stream := append(append([]byte(nil), first...), more...)
+	c.logf("growing buffer: limit=%d initially %d bytes, then %d", n, len(first), len(stream))
+	c.sig = kernel.HashBytes(c.sig, []byte(fmt.Sprint("G", n, len(first), len(stream))))
+	c.nonTriv = true
+	rc.Stats.Probe("growing-buffer")
+	var delivered uint64
+	for i := 0; i < 50; i++ {
+		p := make([]byte, tp.Choose(9))
+		got, err := lr.Read(p)
+		rc.Steps++
+		c.sig = kernel.HashBytes(c.sig, []byte{byte(len(p)), byte(got), errByte(err)})
+		if got < 0 || got > len(p) || delivered+uint64(got) > n || !bytes.Equal(p[:got], stream[delivered:delivered+uint64(got)]) {
+			rc.Fail("over-delivery", "LimitReader.Read", fmt.Sprintf(
+				"LimitReader over a bytes.Buffer that grew after wrapping: Read returned %d bytes after %d of limit %d", got, delivered, n))
+
+			return
+		}
+		delivered += uint64(got)
+		var le *ioutil.LimitError
+		if errors.As(err, &le) {
+			if delivered != n || le.Limit != n {
+				rc.Fail("limit-error", "LimitReader.Read", fmt.Sprintf("returned %v after %d of %d bytes", err, delivered, n))
+			}
+
+			return
+		}
+		if err != nil {
+			rc.Fail("error-invented", "LimitReader.Read", fmt.Sprintf("a bytes.Buffer with %d unread bytes and limit %d (delivered %d): Read returned %v", len(stream)-int(delivered), n, delivered, err))
+
+			return
+		}
+	}
+}
+
 func errByte(err error) byte {
 	switch {
 	case err == nil:
@@ -276,6 +394,9 @@ func runWriter(c *ctx) {
 	sw := &kernel.SimWriter{Tape: tp, Stats: rc.Stats}
 	if tp.Bool(1, 3) {
 		sw.FailRate = 4
+	}
+	if tp.Bool(1, 6) {
+		sw.ShortNil = 4
 	}
 	tw := ioutil.NewTruncatedWriter(sw, limit)
 	c.logf("writer: limit=%d failing=%v", limit, sw.FailRate > 0)
